@@ -156,6 +156,7 @@ def main(prop, argv=None):
         a.tier = 'quick'
     t_start = time.time()
     try:
+        prop.BASE_SEED = a.seed
         prop.setup()
         _PROP = prop
         if a.replay:
